@@ -295,6 +295,8 @@ def random(N, R, dtype=tn.float64, device=None):
         R = [1]+[R]*(len(N)-1)+[1]
     elif len(N)+1 != len(R) or R[0] != 1 or R[-1] != 1 or len(N) == 0:
         raise InvalidArguments('Check if N and R are right.')
+    if any(r < 1 for r in R):
+        raise InvalidArguments('Check if N and R are right.')
     if any(isinstance(s, tuple) and len(s) != 2 for s in N):
         raise InvalidArguments('Check if N and R are right.')
 
@@ -640,6 +642,8 @@ def elementwise_divide(x, y, eps=1e-12, starting_tensor=None, nswp=50, kick=4, l
 
     if isinstance(x, torchtt._tt_base.TT) and isinstance(y, torchtt._tt_base.TT) and (x.is_ttm != y.is_ttm or len(x.N) != len(y.N) or any(n != m and m != 1 for n, m in zip(x.N, y.N)) or (x.is_ttm and x.M != y.M)):
         raise ShapeMismatch('Both operands should have the same shape (size 1 modes of the second one are broadcast).')
+    if preconditioner not in (None, 'c'):
+        raise InvalidArguments("Invalid preconditioner.")
     if starting_tensor is not None and isinstance(x, torchtt._tt_base.TT) and (starting_tensor.is_ttm != x.is_ttm or starting_tensor.N != x.N or (x.is_ttm and starting_tensor.M != x.M)):
         raise ShapeMismatch('The starting tensor must have the shape of the operands.')
     cores_new = amen_divide(y, x, nswp, starting_tensor, eps, rmax=1000, kickrank=kick,
